@@ -52,6 +52,7 @@ theorem nvarEntry_sim (pol : UInt8) : ∀ (fuel : Nat) (buf : Bytes) (offset : N
     refine sim_bind (sim_lift _) (fun r => ?_)
     obtain ⟨e2, guids⟩ := r
     simp only []
+    refine sim_ite ?_ (sim_pure _)
     refine sim_bind (sim_lift _) (fun content => ?_)
     refine sim_ite ?_ (sim_pure _)
     refine sim_bind (sim_call _ _) (fun ns => ?_)
@@ -72,7 +73,7 @@ theorem nvarLoop_sim (pol : UInt8) : ∀ (fuel : Nat) (s : NvS), Sim (nvarLoopC 
     | none => exact sim_pure _
     | some x =>
       obtain ⟨e, guids⟩ := x
-      exact nvarLoop_sim pol fuel _
+      exact sim_ite sim_err (nvarLoop_sim pol fuel _)
 
 theorem nvarStore_sim (pol : UInt8) : ∀ (fuel : Nat) (buf : Bytes), Sim (nvarStoreC pol fuel buf) (nvarStoreG pol fuel buf)
   | 0, buf => by rw [nvarStoreC, nvarStoreG]; exact sim_lift _
@@ -150,6 +151,10 @@ theorem nvarEntryC_step (pol : UInt8) (fuel : Nat)
   refine postC_bind_lift (post'_of_post (nvIdent_post s _ _ _ _ _ _ hvl (by omega) rfl rfl hinv.2.1)) hE ?_
   rintro ⟨e2, guids⟩ m4 ⟨hd1, hd2, hsz, hfit, hgl⟩
   simp only [] at hd1 hd2 hsz hfit hgl ⊢
+  have hplain : EntryCQ s buf k (some (e2, guids)) { k with steps := k.steps + 1 } := by
+    simp only [EntryCQ, Sd, hsz]
+    exact ⟨⟨by omega, trivial⟩, by omega, by omega, hfit, hgl⟩
+  refine postC_ite (fun _ => ?_) (fun _ => postC_pure hplain)
   refine postC_bind_lift (R := fun r _ => r = (buf.take (rd (List.take 10 buf) 4 2)).drop e2.dataOffset)
     (post'_sliceFromG rfl) hE ?_
   intro content m5 hcont
@@ -211,6 +216,9 @@ theorem nvarLoopC_step (pol : UInt8) (fuel : Nat)
         (costOf (nvarEntryC pol fuel (List.take (s.gso - s.fso) (List.drop s.fso s.buf)) s.fso s) m1
           { k with steps := k.steps + 1 })
         ⟨hlen, hfit', rfl⟩ (by simp only []; unfold GuidsFit at hfit hfit'; omega)
+      refine postC_ite (fun _ => postC_err ?_) (fun _ => ?_)
+      · simp only [Sd, Sl] at hsd ⊢
+        omega
       refine postC_mono hrec (fun _ _ k3 hk3 => ?_) (fun k3 hk3 => ?_)
       · simp only [Sd, Sl] at hsd hk3 ⊢
         unfold GuidsFit at hfit hfit'
